@@ -682,7 +682,7 @@ func (r *rig) stepServe(i int) (bool, error) {
 		return false, nil
 	}
 	nodeOp := ""
-	if len(n.spec.Path) <= 200 {
+	if len(n.spec.Path) <= 200 && !n.spec.NoStop {
 		loc := make([]string, len(req.Loc))
 		for k, l := range req.Loc {
 			loc[k] = display(l)
@@ -777,6 +777,35 @@ func (r *rig) stepAnnounce(i int, how string, k int) error {
 		} else {
 			how = "inv"
 			step += " (headers would not connect to what the peer is known to have: inv)"
+		}
+	}
+	if how == "invx" {
+		if r.s.Engine != "legacy" || from == 0 {
+			how = "inv"
+		} else {
+			// ONE inv: a tx entry, the one or two blocks announced before (the service has them when it is in sync
+			// with this node), the new blocks oldest first, another tx entry. searchForFinalBlock must pick the LAST
+			// block entry.
+			back := 2
+			if from < 2 {
+				back = from
+			}
+			if n.isClosed() || to == from {
+				return nil
+			}
+			es := []invEntry{{Tx: true, Idx: n.spec.Path[to-1]}}
+			items := []string{fmt.Sprintf("t%d", n.spec.Path[to-1])}
+			for _, ix := range n.spec.Path[from-back : to] {
+				es = append(es, invEntry{Idx: ix})
+				items = append(items, fmt.Sprint(ix))
+			}
+			es = append(es, invEntry{Tx: true, Idx: n.spec.Path[0]})
+			items = append(items, fmt.Sprintf("t%d", n.spec.Path[0]))
+			_ = n.sendInvEntries(es)
+			if err := r.record(step, fmt.Sprintf("sync inv CHOICE %d %s", i, strings.Join(items, " "))); err != nil {
+				return err
+			}
+			return r.pendingDone()
 		}
 	}
 	idxs := append([]int{}, n.spec.Path[from:to]...)
